@@ -19,7 +19,7 @@ from ..run import pydoctor_child, scratch_root, write_tree
 
 ID = "C18"
 RULE = ("link-rich generated projects and grammar-generated trees (1-3 roots, with and without --project-name) x a schedule set of "
-        "4 runs: generated PYTHONHASHSEED values, shuffled directory listings, fresh vs reused output directory, SOURCE_DATE_EPOCH or "
+        "4 runs: generated PYTHONHASHSEED values, shuffled directory listings, fresh vs reused output directory (the reusing run under another TZ), SOURCE_DATE_EPOCH or "
         "--buildtime. Non-trivial when the project has >=2 modules and >=8 objects (so that iteration order can matter); distinct by "
         "hash of (files, args, schedule).")
 ASSUMPTIONS = [
@@ -104,6 +104,10 @@ def check_case(case: Dict[str, Any]) -> Tuple[List[Tuple[str, str]], Dict[str, A
                 env['SOURCE_DATE_EPOCH'] = None   # removed from the child's environment
             else:
                 env['SOURCE_DATE_EPOCH'] = '1580608922'
+            # the build time is an instant (SOURCE_DATE_EPOCH) or is given as text (--buildtime): the local time zone of the machine
+            # that builds is not an input
+            if sched.get('tz'):
+                env['TZ'] = sched['tz']
             env['PV_LISTDIR_SHUFFLE'] = str(sched['shuffle']) if sched.get('shuffle') else ''
             e2 = dict(env)
             code, so, se = pydoctor_child(src, case['roots'], outdir, args, env=e2, timeout=300, cwd=base)
@@ -120,7 +124,7 @@ def check_case(case: Dict[str, Any]) -> Tuple[List[Tuple[str, str]], Dict[str, A
                     out.append(('file-set-differs', '%s vs %s: files only in one tree: %s' % (ref_desc, desc, sorted(set(dg) ^ set(ref))[:6])))
                 for name in sorted(set(dg) & set(ref)):
                     if dg[name] != ref[name]:
-                        kind = 'reused-output-dir' if sched.get('reuse') else ('listing-order' if sched.get('shuffle') and sched['hashseed'] == case['schedule'][0]['hashseed'] else 'hash-seed-or-listing-order')
+                        kind = ('reused-output-dir-or-time-zone' if sched.get('tz') else 'reused-output-dir') if sched.get('reuse') else ('listing-order' if sched.get('shuffle') and sched['hashseed'] == case['schedule'][0]['hashseed'] else 'hash-seed-or-listing-order')
                         what = first_diff(ref[name][1], dg[name][1]) if ref[name][0] == 'file' and dg[name][0] == 'file' else '%r vs %r' % (ref[name][:1], dg[name][:1])
                         out.append(('output-differs:' + _where(name), '%s vs %s (%s): %s differs %s' % (ref_desc, desc, kind, name, what)))
                         break
@@ -162,7 +166,7 @@ def st_case():
         h0 = draw(st.integers(0, 4000))
         sched = [{'hashseed': h0},
                  {'hashseed': draw(st.integers(0, 4000)), 'shuffle': draw(st.integers(1, 10 ** 6))},
-                 {'hashseed': draw(st.integers(0, 4000)), 'reuse': True},
+                 {'hashseed': draw(st.integers(0, 4000)), 'reuse': True, 'tz': draw(st.sampled_from(['JST-9', 'PST8', 'UTC', 'NPT-5:45']))},
                  {'hashseed': h0, 'shuffle': draw(st.integers(1, 10 ** 6))}]
         return {'files': p['files'], 'roots': p['roots'], 'args': args, 'schedule': sched, 'buildtime': draw(st.integers(0, 3)) == 0}
     return c()
